@@ -175,6 +175,21 @@ def grey_relations(ao, rng, quick):
                     bad.append(("subaps:active-set:threshold-equal-to-a-cell-fill:grey-mask", dict(M=M, S=S, kind=kind, threshold=float(t),
                                                                                                     selected=int(len(sel)), expected=int(len(want)))))
                     return bad, n
+    # the cells TILE the mask whatever the ratio of mask size to sub-aperture count: a mask with one row (column) lit lights exactly one
+    # row (column) of cells, and with every pixel lit the cell means weighted by the cell areas give back the number of lit pixels
+    for (M, S) in ((25, 12), (25, 14), (33, 18), (53, 12), (65, 14), (21, 8), (30, 7), (49, 10), (17, 6), (37, 16), (11, 4), (45, 14)):
+        for axis in (0, 1):
+            for line in range(M):
+                m1 = np.zeros((M, M))
+                if axis == 0:
+                    m1[line, :] = 1.0
+                else:
+                    m1[:, line] = 1.0
+                co = np.asarray(wfslib.findActiveSubaps(S, m1, 1e-9), float).reshape(-1, 2)
+                n += 1
+                if len(co) != S or len(np.unique(co[:, axis])) != 1 or len(np.unique(co[:, 1 - axis])) != S:
+                    bad.append(("subaps:cells-do-not-tile-the-mask", dict(M=M, S=S, axis=axis, line=line, active_cells=int(len(co)))))
+                    return bad, n
     # rectangular masks (cropped / elliptical pupils), both sides multiples of the sub-aperture count: the cells are the S x S grid of
     # (Mx/S) x (My/S) blocks, selected by their mean, coordinates (x * Mx/S, y * My/S)
     for (Mx, My, S) in ((12, 8, 4), (8, 12, 4), (6, 12, 3), (10, 4, 2), (9, 6, 3)):
